@@ -44,6 +44,17 @@ class DefaultConfigParser(ConfigParser):
         return value
 
 
+def split_lines(value: str) -> T.List[str]:
+    '''Like value.splitlines(keepends=True), but lines only end at '\\n',
+    which is the only line break of the lexer (a comment may contain a form
+    feed or another character that str.splitlines() treats as a line break)'''
+    lines = value.split('\n')
+    result = [line + '\n' for line in lines[:-1]]
+    if lines[-1]:
+        result.append(lines[-1])
+    return result
+
+
 def match_path(filename: str, pattern: str) -> bool:
     '''recursive glob match for editorconfig sections'''
     index = 0
@@ -351,7 +362,7 @@ class TrimWhitespaces(FullAstVisitor):
         self.in_block_comments = False
 
     def visit_WhitespaceNode(self, node: mparser.WhitespaceNode) -> None:
-        lines = node.value.splitlines(keepends=True)
+        lines = split_lines(node.value)
         node.value = ''
         in_block_comments = self.in_block_comments
         with_comments = ['#' in line for line in lines] + [False]
@@ -687,7 +698,7 @@ class ArgumentFormatter(FullAstVisitor):
         self.exit_node(node)
 
     def visit_WhitespaceNode(self, node: mparser.WhitespaceNode) -> None:
-        lines = node.value.splitlines(keepends=True)
+        lines = split_lines(node.value)
         if lines:
             indent = (node.condition_level + self.level) * self.config.indent_by
             node.value = '' if node.block_indent else lines.pop(0)
@@ -814,7 +825,7 @@ class ComputeLineLengths(FullAstVisitor):
         return line_length
 
     def count_multiline(self, value: str) -> None:
-        lines = value.splitlines(keepends=True)
+        lines = split_lines(value)
         for line in lines:
             if line.endswith('\n'):
                 self.lengths.append(self.length + self.len(line) - 1)
